@@ -95,7 +95,7 @@ package exec
 //@   modifies t.state, t.waitc
 
 //@ func exec.(*Task).Error
-//@   requires t != nil && err != nil
+//@   requires t != nil
 //@   ensures  t.state == TaskErr && t.err == err
 //@   modifies t.state, t.err, t.waitc
 
@@ -144,3 +144,61 @@ package exec
 //@   ensures  missing-is-error: implies(!has(l.buffers, task), hastype(result, sliceio.ReaderWithCloseFunc) && unbox(result, sliceio.ReaderWithCloseFunc).Reader != nil && unbox(result, sliceio.ReaderWithCloseFunc).Reader.errOnly)
 //@   ensures  result != nil
 //@   modifies l.mu, SReader.errOnly
+
+// ---- C14: every proc handed out by the cluster manager is returned exactly once ----
+// Ghost counters are maintained by the assumed contracts of Offer (request), stats.Map.Int (called exactly when
+// a machine has been granted, right after the receive from the offer channel) and sliceMachine.Done (return).
+
+//@ extern func exec.(*machineManager).Offer (priority, procs) (machc, cancel)
+//@   requires procs-in-range: procs >= 1 && procs <= m.machprocs
+//@   ensures  offerCalls == old(offerCalls) + 1 && lastOfferProcs == procs && lastOfferMgr == m
+//@   modifies offerCalls, lastOfferProcs, lastOfferMgr
+
+//@ extern func exec.(*sliceMachine).Done (procs, err)
+//@   ensures doneCalls == old(doneCalls) + 1 && lastDoneProcs == procs
+//@   modifies doneCalls, lastDoneProcs
+
+//@ extern func exec.(*sliceMachine).UpdateStatus
+//@   modifies nothing
+//@ extern func exec.(*sliceMachine).Assign
+//@   modifies Task.state, Task.waitc
+//@ extern func exec.(*bigmachineExecutor).addInvocation
+//@   modifies nothing
+//@ extern func exec.(*bigmachineExecutor).checkInvocationReader
+//@   modifies nothing
+//@ extern func exec.(*bigmachineExecutor).manager (i) (mgr)
+//@   ensures mgr != nil && mgr.machprocs >= 1
+//@   modifies nothing
+//@ extern func exec.(*bigmachineExecutor).compile
+//@   modifies nothing
+//@ extern func exec.(*bigmachineExecutor).commit
+//@   modifies nothing
+//@ extern func exec.(*bigmachineExecutor).location
+//@   ensures result == nil || result.Machine != nil
+//@   modifies nothing
+//@ extern func exec.(*bigmachineExecutor).setLocation
+//@   modifies nothing
+//@ extern func exec.(*tracer).Event
+//@   modifies nothing
+//@ extern func exec.monitorTaskStats
+//@   modifies nothing
+//@ extern func exec.(*Task).Errorf
+//@   ensures t.state == TaskErr && t.err != nil
+//@   modifies t.state, t.err, t.waitc
+//@ extern func exec.TaskDep.NumTask
+//@   modifies nothing
+//@ extern func exec.TaskDep.Task
+//@   modifies nothing
+
+//@ func exec.(*bigmachineExecutor).Run
+//@   requires b != nil && task != nil && b.sess != nil && task.Pragma != nil && procsPragma(task.Pragma) >= 1 && regOK()
+//@   flag chan_nonnil
+//@   flag trust_nil_safety
+//@   ensures  request-clamped: implies(offerCalls > old(offerCalls), offerCalls == old(offerCalls) + 1 && lastOfferProcs == ite(exclusivePragma(task.Pragma) || procsPragma(task.Pragma) > lastOfferMgr.machprocs, lastOfferMgr.machprocs, procsPragma(task.Pragma)))
+//@   ensures  returned-once-after-grant: implies(grants > old(grants), doneCalls == old(doneCalls) + 1 && lastDoneProcs == lastOfferProcs)
+//@   ensures  nothing-returned-without-grant: implies(grants == old(grants), doneCalls == old(doneCalls))
+//@   ensures  cancelled-if-abandoned: implies(offerCalls > old(offerCalls) && grants == old(grants), cancelCalls == old(cancelCalls) + 1)
+//@   modifies unknown
+//@   loop 1 invariant grants == old(grants) + 1 && doneCalls == old(doneCalls) && offerCalls == old(offerCalls) + 1 && lastOfferProcs == procs && m != nil && lastOfferMgr == mgr && regOK()
+//@   loop 2 invariant grants == old(grants) + 1 && doneCalls == old(doneCalls) && offerCalls == old(offerCalls) + 1 && lastOfferProcs == procs && m != nil && regOK()
+//@   loop 3 invariant grants == old(grants) + 1 && doneCalls == old(doneCalls) && offerCalls == old(offerCalls) + 1 && lastOfferProcs == procs && m != nil && regOK()
